@@ -64,10 +64,10 @@ Proof. vm_compute. reflexivity. Qed.
 
 Example obs_expr_nonvacuous :
   let p := [SAssign sF (Mul (Sym sT1) (Sym sW)); SAssign sY (Add (Sym sF) (Mul (Sym sF) (Sym sE1)))] in
-  g_dv_single p sY = true /\
+  ~ In sY (amounts p) /\
   obs_expr p sY = Some (Add (Mul (Sym sT1) (Sym sW)) (Mul (Mul (Sym sT1) (Sym sW)) (Sym sE1))) /\
   ipred_expr p sY [sE1] = Some (Add (Mul (Sym sT1) (Sym sW)) (Mul (Mul (Sym sT1) (Sym sW)) (Num 0))).
-Proof. repeat split; vm_compute; reflexivity. Qed.
+Proof. split; [vm_compute; tauto | split; vm_compute; reflexivity]. Qed.
 
 (* ETA1, ETA2 joint; only ETA1 is used: ETA2 is unjoined and removed together with its omegas *)
 Example unused_nonvacuous :
@@ -78,7 +78,7 @@ Example unused_nonvacuous :
 Proof. split; vm_compute; reflexivity. Qed.
 
 Example fixed_are_thetas_nonvacuous :
-  g_fixed_are_thetas ex_fixed ex_dists = true /\
+  dangling ex_fixed ex_dists = [] /\
   cleanup_params ex_fixed ex_dists [sT1; sT2; sOM; sOM2] = [sT1; sOM] /\
   kept_dists ex_fixed ex_dists = [mkDist [sETA] [sOM]].
 Proof. repeat split; vm_compute; reflexivity. Qed.
@@ -95,14 +95,12 @@ Example rename_env_nonvacuous :
   forallb (fun x => oq_eqb (r' (ren d x)) (r x)) (all_ssyms pheno_prog ++ [sOM]) = true.
 Proof. vm_compute. reflexivity. Qed.
 
-(* the repaired make_declarative on the two refuting programs and on the pheno-like program *)
-Example patched_nonvacuous :
-  g_valid [sT1; sT2] stale_prog = true /\
-  declarative_patched stale_prog =
-    [SAssign sB (Sym sT2); SAssign sC (Sym sT1); SAssign sA (Num 5);
-     SAssign sY (Add (Add (Sym sA) (Sym sB)) (Sym sC))] /\
-  g_valid [sT1; sT2] raw_prog = true /\
-  sexec std_fi std_ode stale_env (declarative_patched raw_prog) sY = Some 2%Q /\
+(* valid models: the two former refuting programs and the pheno-like program *)
+Example valid_nonvacuous :
+  g_valid [sT1; sT2] stale_prog = true /\ g_valid [sT1; sT2] raw_prog = true /\
   g_valid [sT1; sT2; sW; sCOV; sETA; sE1] pheno_prog = true /\
-  g_no_stale_capture_patched pheno_prog = true.
+  g_no_stale_capture pheno_prog = true /\
+  (* a program that assigns a parameter is not valid, and there the guard can still fail *)
+  g_valid [sT1; sT2] [SAssign sA (Sym sT1); SAssign sA (Add (Sym sA) (Num 1)); SAssign sT1 (Num 3);
+                      SAssign sB (Sym sA); SAssign sA (Num 0)] = false.
 Proof. repeat split; vm_compute; reflexivity. Qed.
